@@ -64,29 +64,31 @@ def _json(depth=2):
     return s
 
 
-def _event(tier, clients):
-    big = st.one_of(st.just(0), st.just(0), st.just(0), st.sampled_from([3990, 4090, 4096, 4200, 8192, 12400]),
-                    st.integers(3900, 12500 if tier == 'quick' else 20000))
-
-    def build(d):
-        src = d['src'] if int(d['src'][1:] or 0) < clients or d['src'] == 'B' else 'A0'
-        ev = dict(d, src=src)
-        if src == 'B':
-            ev['how'] = 'server' if d['hw'] < 5 else 'server_nores'
-            ev['to'] = d['to'] % clients
+def _finish_event(d, clients):
+    """Resolve the drawn fields against the topology (constructive: indices modulo what exists)."""
+    src = d['src'] if d['src'] == 'B' or int(d['src'][1:]) < clients else 'A0'
+    ev = dict(d, src=src)
+    if src == 'B':
+        ev['how'] = 'server' if d['hw'] < 5 else 'server_nores'
+        ev['to'] = d['to'] % clients
+        ev['channels'] = d['chs']
+    else:
+        ev['how'] = ['call', 'fire', 'client'][d['hw'] % 3]
+        ev['to'] = 0
+        if ev['how'] == 'client':
             ev['channels'] = d['chs']
         else:
-            ev['how'] = ['call', 'fire', 'client'][d['hw'] % 3]
-            ev['to'] = 0
-            if ev['how'] == 'client':
-                ev['channels'] = d['chs']
-            else:
-                ev['channels'] = None if not d['chs'] else d['chs'][:1]
-        if d['bigarg']:
-            ev['args'] = list(d['args']) + [{'big': d['bigarg']}]
-        for k in ('hw', 'chs', 'bigarg'):
-            ev.pop(k)
-        return ev
+            ev['channels'] = None if not d['chs'] else d['chs'][:1]
+    if d['bigarg']:
+        ev['args'] = list(d['args']) + [{'big': d['bigarg']}]
+    for k in ('hw', 'chs', 'bigarg'):
+        ev.pop(k)
+    return ev
+
+
+def _event(tier):
+    big = st.one_of(st.just(0), st.just(0), st.just(0), st.sampled_from([3990, 4090, 4096, 4200, 8192, 12400]),
+                    st.integers(3900, 12500 if tier == 'quick' else 20000))
 
     tam = st.dictionaries(st.sampled_from(HOSTILE_KEYS), st.sampled_from(SENT), max_size=3)
     return st.fixed_dictionaries({
@@ -104,7 +106,7 @@ def _event(tier, clients):
         'bigarg': big,
         'tamper_call': st.one_of(st.just({}), st.just({}), tam),
         'tamper_value': st.one_of(st.just({}), st.just({}), tam),
-    }).map(build)
+    })
 
 
 def _forged_raw():
@@ -166,21 +168,23 @@ def _forged():
 
 
 def _spec(tier):
-    def waves(clients):
-        wave = st.fixed_dictionaries({
-            'sends': st.lists(_event(tier, clients), min_size=0, max_size=4),
-            'forged': st.one_of(st.just([]), st.just([]), st.lists(_forged(), min_size=1, max_size=3))})
-        return st.lists(wave, min_size=1, max_size=3)
-
+    wave = st.fixed_dictionaries({
+        'sends': st.lists(_event(tier), min_size=0, max_size=4),
+        'forged': st.one_of(st.just([]), st.just([]), st.lists(_forged(), min_size=1, max_size=3))})
     fw = st.fixed_dictionaries({'send': st.lists(st.sampled_from(NAMES), max_size=2, unique=True),
                                 'recv': st.lists(st.sampled_from(NAMES), max_size=2, unique=True),
                                 'always': st.booleans()})
     fws = st.one_of(st.just({}), st.dictionaries(st.sampled_from(['B', 'A0', 'A1']), fw, max_size=3))
     sizes = st.lists(st.one_of(st.integers(1, 40), st.integers(1, 4096), st.sampled_from([1, 2, 3, 4095, 4096, 4096, 4096])), min_size=1, max_size=6)
-    return st.integers(1, 2).flatmap(lambda c: st.fixed_dictionaries({
-        'clients': st.just(c), 'fw': fws,
+
+    def finish(d):
+        c = d['clients']
+        return dict(d, waves=[dict(w, sends=[_finish_event(e, c) for e in w['sends']]) for w in d['waves']])
+
+    return st.fixed_dictionaries({
+        'clients': st.integers(1, 2), 'fw': fws,
         'cuts': st.fixed_dictionaries({'sizes': sizes, 'burst': st.sampled_from([0, 0, 1, 2, 5])}),
-        'waves': waves(c)}))
+        'waves': st.lists(wave, min_size=1, max_size=3)}).map(finish)
 
 
 # ---------------------------------------------------------------------------------------------- comparison
@@ -235,6 +239,11 @@ class C19(Prop):
     def setup(self):
         driver.quiet_process()
         H.install()
+        # every case builds and drops ~20 components (cyclic garbage): keep the collector from re-scanning the large
+        # heap inherited from the runner (hypothesis, ...) - measured 10x on the forked shard/enumeration workers
+        import gc
+        gc.collect()
+        gc.freeze()
 
     def strategy(self, tier):
         return _spec(tier)
